@@ -46,6 +46,7 @@ CHECKS = {
         rapid("codecx", "TestC19Prng", 20000, 60000, 4),
         rapid("codecx", "TestC19PrngPar", 150, 150, 4),
         rapid("codecx", "TestC19PrefixPar", 150, 150, 4),
+        rapid("codecx", "TestC19PadPar", 150, 150, 4),
         fuzz("codecx", "FuzzC19Unpad", 30),
         fuzz("codecx", "FuzzC19Pad", 30),
         fuzz("codecx", "FuzzC19Prefix", 30),
@@ -56,6 +57,7 @@ CHECKS = {
         rapid("seqiox", "TestC20Sizer", 10000, 60000, 4),
         rapid("seqiox", "TestC20Closer", 10000, 60000, 4),
         rapid("seqiox", "TestC20CloserPar", 1500, 3000, 8),
+        rapid("seqiox", "TestC20SizerPar", 300, 600, 4),
         rapid("seqiox", "TestC20Unique", 10000, 60000, 4),
         rapid("seqiox", "TestC20Proxy", 5000, 30000, 8),
     ]},
